@@ -3,6 +3,12 @@
 import json, os, subprocess, sys, glob
 V = '/verif'
 only = sys.argv[1:]
+# the checks run from a frozen copy of the committed /verif, so that editing the working tree meanwhile cannot disturb them
+import tempfile, atexit, shutil
+SNAP = tempfile.mkdtemp(prefix='verif_snap_')
+atexit.register(lambda: shutil.rmtree(SNAP, ignore_errors=True))
+subprocess.run('git -C %s archive HEAD | tar -x -C %s' % (V, SNAP), shell=True, check=True)
+os.environ['VERIF_SNAP'] = SNAP
 rows = {}
 ALT = {'C15': ['C11', 'C06'], 'C06': ['C15'], 'C20': ['C06'], 'C16': ['C17', 'C11'], 'C11': ['C17'], 'C17': ['C11'], 'C07': ['C10', 'C18'],
        'C08': ['C04'], 'C13': ['C12'], 'C12': ['C13'], 'C02': ['C13'], 'C09': ['C07'], 'C14': ['C13'], 'C18': ['C07'], 'C10': ['C07'], 'C01': ['C07'],
